@@ -11,7 +11,7 @@
 use serde::{Deserialize, Serialize};
 use crate::rng::Rng;
 
-const ATOMS: [&str; 15] = ["a", "b", "c", "Alfred", "Edward", "red apple", "x1", "harold_2", "north", "pie", "café", "Æthelstan", "Henry V", "Mr T", "Harold II"];
+const ATOMS: [&str; 16] = ["a", "b", "c", "Alfred", "Edward", "red apple", "x1", "harold_2", "north", "pie", "café", "Æthelstan", "Henry V", "Mr T", "Harold II", "two  blanks"];
 const PREDS: [&str; 8] = ["f", "g", "parent", "loves", "edge", "q", "size", "kind"];
 const VARS: [&str; 5] = ["$X", "$Y", "$Z", "$Who", "$T"];
 
@@ -29,7 +29,7 @@ fn term(rng: &mut Rng, depth: usize, floats: bool) -> String {
     let w: [u64; 8] = [6, 3, if floats { 2 } else { 0 }, 5, if depth > 0 { 2 } else { 0 }, if depth > 0 { 2 } else { 0 }, 1, if floats { 1 } else { 0 }];
     match rng.weighted(&w) {
         // a quoted string (only where the caller is inside parentheses: `floats` marks that)
-        7 => format!("\"{}\"", rng.pick(&["Hello, world", "yes", "a, b, c", "one. two", "x; y"])),
+        7 => format!("\"{}\"", rng.pick(&["Hello, world", "yes", "a, b, c", "one. two", "x; y", "Name  Age", "tab\there"])),
         0 => atom(rng),
         1 => rng.range(0, 40).to_string(),
         2 => format!("{}.{}", rng.range(0, 9), rng.range(1, 99)),
